@@ -185,6 +185,21 @@ def effective_semantics(repo, asmmod, cpumod):
             t = cg.resolve_name(cm, name)
             if t is not None and not isinstance(t, tuple) and not hasattr(t, "methods"):
                 out[name] = t
+    # module-level aliases `i_X = i_Y` of the asm module name the same definition
+    am = repo.modules.get(asmmod)
+    if am is not None:
+        alias = {}
+        for n in am.tree.body:
+            if isinstance(n, ast.Assign) and isinstance(n.value, ast.Name):
+                for t in n.targets:
+                    if isinstance(t, ast.Name) and t.id.startswith("i_"):
+                        alias[t.id] = n.value.id
+        for a in alias:
+            b, hops = a, 0
+            while b in alias and hops < 4:
+                b, hops = alias[b], hops + 1
+            if a not in out and b in out:
+                out[a] = out[b]
     return out
 
 
@@ -213,6 +228,43 @@ def _reads_pc(node_ast):
     return False
 
 
+def _pc_interval(fnode, callee=None, callee_iv=(0, 0)):
+    """(min, max) number of stores to fmap[pc] over the paths of fnode; a statement calling `callee` counts callee_iv"""
+    cfg = CFG(fnode, may_raise=lambda x: False)
+
+    def transfer(node, st, label):
+        lo, hi = st
+        if node.kind in ("stmt", "test", "return") and node.ast is not None:
+            if node.kind == "stmt" and _pc_stores(node.ast):
+                lo, hi = lo + 1, hi + 1
+            if callee is not None:
+                e = node.ast.test if node.kind == "test" else node.ast
+                if any(isinstance(c, ast.Call) and isinstance(c.func, ast.Name) and c.func.id == callee for c in _walk_no_nested(e)):
+                    lo, hi = lo + callee_iv[0], hi + callee_iv[1]
+        return (lo, hi)
+
+    ins = cfg.forward((0, 0), transfer, lambda a, b: (min(a[0], b[0]), max(a[1], b[1])))
+    lo, hi = 10 ** 6, 0
+    for nd in cfg.nodes:
+        for succ, lab in cfg.succ[nd.id]:
+            if succ is cfg.exit and nd.id in ins:
+                a, b = transfer(nd, ins[nd.id], lab)
+                lo, hi = min(lo, a), max(hi, b)
+    return lo, hi
+
+
+def _decorator_inner(repo, asmmod, dname):
+    """(inner def node, name of the wrapped-function parameter) for a module-level `def dname(g): def w(..): ...; return w`"""
+    m = repo.modules[asmmod]
+    for f in m.functions.values():
+        if f.parent is None and f.cls is None and f.name == dname and len(f.params()) == 1:
+            inner = [s for s in f.node.body if isinstance(s, ast.FunctionDef)]
+            rets = [s for s in f.node.body if isinstance(s, ast.Return) and isinstance(s.value, ast.Name)]
+            if len(inner) == 1 and len(rets) == 1 and rets[0].value.id == inner[0].name:
+                return inner[0], f.params()[0]
+    return None
+
+
 def r_pc(repo, tier):
     out = RuleOut(
         "R-PC",
@@ -232,24 +284,22 @@ def r_pc(repo, tier):
             n += 1
             wrapped = any(isinstance(d, ast.Name) and d.id == wrapper for d in f.node.decorator_list)
             cfg = CFG(f.node, may_raise=lambda x: False)
-
-            def transfer(node, st, label, _f=f):
-                lo, hi = st
-                if node.kind == "stmt" and _pc_stores(node.ast):
-                    return (lo + 1, hi + 1)
-                return st
-
-            ins = cfg.forward((0, 0), transfer, lambda a, b: (min(a[0], b[0]), max(a[1], b[1])))
-            lo, hi = 10, 0
-            for nd in cfg.nodes:
-                for succ, lab in cfg.succ[nd.id]:
-                    if succ is cfg.exit and nd.id in ins:
-                        a, b = transfer(nd, ins[nd.id], lab)
-                        lo, hi = min(lo, a), max(hi, b)
-            expect = 0 if wrapped else 1
+            lo, hi = _pc_interval(f.node)
+            # decorators are applied innermost first: each recognised wrapper adds its own stores around the call of the
+            # function it wraps; an unrecognised decorator leaves the count undecided
+            decided = True
+            for d in reversed(f.node.decorator_list):
+                di = _decorator_inner(repo, asmmod, d.id) if isinstance(d, ast.Name) else None
+                if di is None:
+                    decided = False
+                    break
+                lo, hi = _pc_interval(di[0], di[1], (lo, hi))
+            expect = 1
             key = "%s::%s" % (f.key, isa)
-            out.inst(key, {"isa": isa, "function": name, "wrapped_by": wrapper if wrapped else None, "own_pc_stores_min_max": [lo, hi]} if n % 15 == 1 else None)
-            if (lo, hi) != (expect, expect):
+            out.inst(key, {"isa": isa, "function": name, "wrapped_by": wrapper if wrapped else None, "pc_stores_min_max": [lo, hi]} if n % 15 == 1 else None)
+            if not decided:
+                out.undecide(f.file, f.dqual, "pc advance (%s)" % isa, "decorated by something that is not a module-level wrapper")
+            elif (lo, hi) != (expect, expect):
                 out.report(f.file, f.dqual, "pc advance (%s)" % isa, f.node.lineno, "%s %s: paths store fmap[pc] between %d and %d times (expected exactly %d): pc is advanced %s" % (name, "is wrapped by @%s" % wrapper if wrapped else "is not wrapped by @%s" % wrapper, lo, hi, expect, "twice or never on some path"))
             # pc reads
             if wrapped:
@@ -303,18 +353,18 @@ def r_signed(repo, tier):
             out.inst("%s::%s" % (f.key, isa), {"isa": isa, "mnemonic": mn, "ordered_compares": [norm(c) for c in cmps], "unsigned_operator_calls": [norm(c)[:40] for c in unsigned_ops], "marks_signed": marks_signed})
             if want_signed:
                 if unsigned_ops and not cmps:
-                    out.report(f.file, f.dqual, "%s compares unsigned (%s)" % (mn, isa), f.node.lineno, "%s is a signed comparison in the manual but is implemented with the unsigned operator" % mn)
+                    out.report(f.file, "i_" + mn, "%s compares unsigned (%s)" % (mn, isa), f.node.lineno, "%s is a signed comparison in the manual but is implemented with the unsigned operator" % mn)
                 elif cmps and not marks_signed:
-                    out.report(f.file, f.dqual, "%s compares unmarked operands (%s)" % (mn, isa), cmps[0].lineno, "%s must compare signed, but builds `%s` on operands that are never marked signed (registers are unsigned by construction, so x1=-1 < x2=1 evaluates false)" % (mn, norm(cmps[0])))
+                    out.report(f.file, "i_" + mn, "%s compares unmarked operands (%s)" % (mn, isa), cmps[0].lineno, "%s must compare signed, but builds `%s` on operands that are never marked signed (registers are unsigned by construction, so x1=-1 < x2=1 evaluates false)" % (mn, norm(cmps[0])))
                 elif not cmps and not unsigned_ops:
-                    out.undecide(f.file, f.dqual, mn, "no ordered comparison recognised")
+                    out.undecide(f.file, "i_" + mn, mn, "no ordered comparison recognised")
             else:
                 if cmps and not marks_unsigned and not unsigned_ops:
-                    out.report(f.file, f.dqual, "%s compares with a sign-dependent operator (%s)" % (mn, isa), cmps[0].lineno, "%s must compare unsigned: use OP_LTU/OP_GEU or mark the operands unsigned" % mn)
+                    out.report(f.file, "i_" + mn, "%s compares with a sign-dependent operator (%s)" % (mn, isa), cmps[0].lineno, "%s must compare unsigned: use OP_LTU/OP_GEU or mark the operands unsigned" % mn)
                 elif cmps and marks_signed:
-                    out.report(f.file, f.dqual, "%s marks operands signed (%s)" % (mn, isa), cmps[0].lineno, "%s must compare unsigned but marks its operands signed" % mn)
+                    out.report(f.file, "i_" + mn, "%s marks operands signed (%s)" % (mn, isa), cmps[0].lineno, "%s must compare unsigned but marks its operands signed" % mn)
                 elif not cmps and not unsigned_ops:
-                    out.undecide(f.file, f.dqual, mn, "no ordered comparison recognised")
+                    out.undecide(f.file, "i_" + mn, mn, "no ordered comparison recognised")
     out.stats["functions"] = n
     if n < 16:
         raise AnalysisError("R-SIGNED: only %d ordered-comparison semantics found (16 expected)" % n)
@@ -409,7 +459,7 @@ def r_raw(repo, tier):
                 nd, m, used = bad
                 out.report(f.file, f.dqual, "reads %s after writing %s (%s)" % (",".join(used), ",".join(sorted(dests)), isa), m.line, "%s evaluates source operand %s (line %d) after it has written the destination register (line %d); when rd is the same register as the source the new value is used" % (name, ",".join(used), m.line, nd.line))
     out.stats["functions"] = n
-    if n < 60:
+    if n < 30:
         raise AnalysisError("R-RAW: only %d semantics functions with unpacked operands" % n)
     return out
 
